@@ -1,7 +1,847 @@
 package main
 
-// Replay of failed obligations against the real code (filled in per obligation kind).
+// Replay of failed obligations against the real code.
+//
+// For an obligation whose negation the solver finds satisfiable, the counterexample is turned into a concrete call of the
+// real function: (1) the failing query is re-run with (get-value ...) for the cells of every parameter; (2) an in-package
+// Go test that builds those arguments, calls the function and prints the observable outputs (pointees of pointer
+// parameters, results, panic) is injected with `go test -overlay` (nothing is written to /repo); (3) the observed outputs
+// are pinned in the same query (post-state cells and result terms of the return the obligation belongs to) and it is
+// solved again: if it is still satisfiable, the real execution itself violates the obligation and the input is reported
+// as a failing input; for panic obligations (index, nil, division, conversion) the real run panicking is the confirmation.
+// If the pinned query is unsatisfiable the model was an artefact of a loose callee contract and no failing input is claimed.
+//
+// Supported: functions whose parameters are integers, booleans, aggregates of those (field elements as limbs, byte
+// arrays), pointers to such aggregates and slices of them (integer view of the heap). Anything else (interfaces, function
+// values, pointer-holding structures, abstract sorts Fp/Fr/Bytes/G) is reported as not replayable.
+
+import (
+	"context"
+	"encoding/json"
+	"fmt"
+	"go/types"
+	"math/big"
+	"os"
+	"os/exec"
+	"path/filepath"
+	"regexp"
+	"sort"
+	"strings"
+	"time"
+
+	"golang.org/x/tools/go/ssa"
+)
+
+type retState struct {
+	heapInt string
+	results []*Val
+}
+
+const replayMaxSliceLen = 512
 
 func replayObligation(r *Report, o *Obligation) map[string]interface{} {
-	return map[string]interface{}{"failing_input_found": false, "note": "no replay harness for this obligation kind"}
+	no := func(why string) map[string]interface{} {
+		return map[string]interface{}{"failing_input_found": false, "note": why}
+	}
+	var g *Gen
+	for _, u := range r.units {
+		if u.unit == o.Unit {
+			g = u
+		}
+	}
+	if g == nil || g.fn == nil || o.MustSat || o.Kind == "lemma" || o.Kind == "sweep" {
+		return no("no replay for this obligation kind")
+	}
+	for _, s := range g.sorts {
+		if s != "Int" {
+			return no("unit uses abstract sorts (" + s + "): models over uninterpreted sorts have no concrete inputs")
+		}
+	}
+	rp := &replayer{g: g, o: o, imports: map[string]string{}}
+	if !rp.describeParams() {
+		return no("parameter types outside the replayable class: " + rp.why)
+	}
+	// Candidate inputs come from models of the failing query as it was posed (abstractions such as opaque definitions
+	// included); each candidate is run on the real code and then judged by the same query with every definition transparent
+	// and inputs and observed outputs pinned, which is a ground evaluation. Up to replayTries models are tried.
+	base := strings.TrimSuffix(strings.TrimSpace(g.smtFor(o)), "(get-model)")
+	g.replayMode = true
+	baseT := strings.TrimSuffix(strings.TrimSpace(g.smtFor(o)), "(get-model)")
+	g.replayMode = false
+	baseT = strings.Replace(baseT, "(check-sat)", "", 1)
+	var last map[string]interface{}
+	block := ""
+	for try := 0; try < replayTries; try++ {
+		rec, again, blk := rp.attempt(r, base+"\n", baseT, block)
+		last = rec
+		if rec["failing_input_found"] == true || !again {
+			rec["candidates_tried"] = try + 1
+			return rec
+		}
+		block += blk
+	}
+	if last != nil {
+		last["candidates_tried"] = replayTries
+	}
+	return last
 }
+
+const replayTries = 4
+
+// attempt replays one model; again reports whether another candidate is worth trying, blk is the clause excluding this one.
+func (rp *replayer) attempt(r *Report, base, baseT, block string) (rec map[string]interface{}, again bool, blk string) {
+	o := rp.o
+	no := func(why string) map[string]interface{} {
+		return map[string]interface{}{"failing_input_found": false, "note": why}
+	}
+	rp.sliceTerms, rp.sliceVals = nil, nil
+	q := strings.Replace(base, "(check-sat)", block+"(check-sat)", 1)
+	vals, verdict := rp.getValues(q, rp.inputTerms())
+	if vals == nil {
+		return no("solver gives no model for this obligation (" + verdict + ")"), false, ""
+	}
+	rp.inVals = vals
+	var diff []string
+	for i, t := range rp.inputTerms() {
+		diff = append(diff, fmt.Sprintf("(= %s %s)", t, smtInt(vals[i])))
+	}
+	blk = "(assert (not (and " + strings.Join(diff, " ") + ")))\n"
+	if extra := rp.sliceContentTerms(); len(extra) > 0 {
+		pin := rp.pinLines(rp.inputTerms(), vals)
+		cv, v2 := rp.getValues(strings.Replace(q, "(check-sat)", pin+"(check-sat)", 1), extra)
+		if cv == nil {
+			return no("solver gives no model for slice contents (" + v2 + ")"), false, blk
+		}
+		rp.sliceTerms, rp.sliceVals = extra, cv
+	}
+	src, ok := rp.testSource()
+	if !ok {
+		return no("could not build a call from the model: " + rp.why), true, blk
+	}
+	out, runErr := rp.run(r.eng.repoDir, src)
+	rec = map[string]interface{}{"failing_input_found": false, "inputs": rp.describeInputs(), "go_test": src}
+	if runErr != "" {
+		rec["note"] = "replay run failed: " + runErr
+		return rec, false, blk
+	}
+	rec["observed"] = out
+	panicked := strings.Contains(out, "GOVC-PANIC")
+	switch o.Kind {
+	case "idx", "nil", "div", "ovf", "slice", "panic", "conv", "assert.type":
+		if panicked {
+			rec["failing_input_found"] = true
+			rec["note"] = "the real function panics on the model's input"
+			return rec, false, blk
+		}
+		rec["note"] = "the real function does not panic on the model's input (the model exploits a loose contract of a callee or the overflow is benign)"
+		return rec, true, blk
+	}
+	if panicked {
+		rec["failing_input_found"] = true
+		rec["note"] = "the real function panics on the model's input"
+		return rec, false, blk
+	}
+	if o.Kind != "post" && o.Kind != "frame" {
+		rec["note"] = "inputs replayed; internal assertion / invariant states are not observable from outside the function"
+		return rec, false, blk
+	}
+	m := regexp.MustCompile(`GOVC-OUT(.*)`).FindStringSubmatch(out)
+	if m == nil {
+		rec["note"] = "replay produced no output line"
+		return rec, false, blk
+	}
+	obs := strings.Fields(m[1])
+	outTerms := rp.outputTerms()
+	if outTerms == nil || len(obs) != len(outTerms) {
+		rec["note"] = fmt.Sprintf("observed %d output cells, expected %d: outputs not pinned", len(obs), len(outTerms))
+		return rec, false, blk
+	}
+	var pins []string
+	pins = append(pins, rp.pinLines(rp.inputTerms(), rp.inVals))
+	if len(rp.sliceTerms) > 0 {
+		pins = append(pins, rp.pinLines(rp.sliceTerms, rp.sliceVals))
+	}
+	for i, t := range outTerms {
+		if t == "" {
+			continue
+		}
+		v, okv := new(big.Int).SetString(obs[i], 10)
+		if !okv {
+			continue
+		}
+		if strings.HasPrefix(t, "bool:") {
+			b := "false"
+			if v.Sign() != 0 {
+				b = "true"
+			}
+			pins = append(pins, fmt.Sprintf("(assert (= %s %s))", strings.TrimPrefix(t, "bool:"), b))
+		} else if strings.HasPrefix(t, "nil:") {
+			if v.Sign() == 0 {
+				pins = append(pins, fmt.Sprintf("(assert (= %s 0))", strings.TrimPrefix(t, "nil:")))
+			} else {
+				pins = append(pins, fmt.Sprintf("(assert (not (= %s 0)))", strings.TrimPrefix(t, "nil:")))
+			}
+		} else {
+			pins = append(pins, fmt.Sprintf("(assert (= %s %s))", t, smtInt(v)))
+		}
+	}
+	verdict2 := rp.solve(baseT + "\n" + strings.Join(pins, "\n") + "\n(check-sat)\n")
+	rec["pinned_verdict"] = verdict2
+	if verdict2 == "sat" {
+		rec["failing_input_found"] = true
+		rec["note"] = "the real execution on this input violates the obligation (the query, with every definition transparent, stays satisfiable with the inputs and the observed outputs pinned)"
+		return rec, false, blk
+	}
+	rec["note"] = "with the observed outputs pinned the obligation holds for this input (" + verdict2 + "): the model was not a real execution"
+	return rec, verdict2 == "unsat", blk
+}
+
+type rparam struct {
+	name  string
+	t     types.Type
+	v     *Val
+	kind  string // scalar, bool, agg, ptr, slice
+	elem  types.Type
+	cells int
+}
+
+type replayer struct {
+	g          *Gen
+	o          *Obligation
+	why        string
+	params     []rparam
+	inVals     []*big.Int
+	sliceTerms []string
+	sliceVals  []*big.Int
+	imports    map[string]string
+}
+
+func flatInts(lay *Layout, t types.Type) bool {
+	ok := true
+	func() {
+		defer func() {
+			if recover() != nil {
+				ok = false
+			}
+		}()
+		for _, c := range lay.Cells(t) {
+			if c.Sort != "Int" || c.Role != "" || c.T == nil {
+				ok = false
+			}
+		}
+	}()
+	return ok
+}
+
+func (rp *replayer) describeParams() bool {
+	g := rp.g
+	for _, p := range g.fn.Params {
+		v := g.vals[p]
+		if v == nil {
+			rp.why = "unbound parameter " + p.Name()
+			return false
+		}
+		d := rparam{name: p.Name(), t: p.Type(), v: v}
+		switch u := p.Type().Underlying().(type) {
+		case *types.Basic:
+			if u.Info()&types.IsBoolean != 0 {
+				d.kind = "bool"
+			} else if u.Info()&types.IsInteger != 0 {
+				d.kind = "scalar"
+			} else {
+				rp.why = p.Name() + " has type " + p.Type().String()
+				return false
+			}
+		case *types.Pointer:
+			if !flatInts(g.lay, u.Elem()) {
+				rp.why = p.Name() + " points to " + u.Elem().String()
+				return false
+			}
+			d.kind, d.elem, d.cells = "ptr", u.Elem(), g.lay.Size(u.Elem())
+		case *types.Slice:
+			if !flatInts(g.lay, u.Elem()) {
+				rp.why = p.Name() + " is a slice of " + u.Elem().String()
+				return false
+			}
+			d.kind, d.elem, d.cells = "slice", u.Elem(), g.lay.Size(u.Elem())
+		case *types.Array, *types.Struct:
+			if !flatInts(g.lay, p.Type()) {
+				rp.why = p.Name() + " has type " + p.Type().String()
+				return false
+			}
+			d.kind, d.cells = "agg", g.lay.Size(p.Type())
+		default:
+			rp.why = p.Name() + " has type " + p.Type().String()
+			return false
+		}
+		rp.params = append(rp.params, d)
+	}
+	if len(g.fn.FreeVars) > 0 {
+		rp.why = "closure with captured variables"
+		return false
+	}
+	return true
+}
+
+// inputTerms: per parameter, the SMT terms whose model values define the argument.
+func (rp *replayer) inputTerms() []string {
+	var ts []string
+	for _, p := range rp.params {
+		switch p.kind {
+		case "scalar", "agg":
+			ts = append(ts, p.v.S...)
+		case "bool":
+			if p.v.Sort == "Bool" {
+				ts = append(ts, fmt.Sprintf("(ite %s 1 0)", p.v.S[0]))
+			} else {
+				ts = append(ts, p.v.S[0])
+			}
+		case "ptr":
+			ts = append(ts, p.v.S[0], p.v.S[1])
+			for k := 0; k < p.cells; k++ {
+				ts = append(ts, fmt.Sprintf("(select (select H0_Int %s) (+ %s %d))", p.v.S[0], p.v.S[1], k))
+			}
+		case "slice":
+			ts = append(ts, p.v.S[0], p.v.S[1], p.v.S[2], p.v.S[3])
+		}
+	}
+	return ts
+}
+
+// value of the i-th input term group for parameter index pi
+func (rp *replayer) paramVals(pi int) []*big.Int {
+	idx := 0
+	for i, p := range rp.params {
+		n := 0
+		switch p.kind {
+		case "scalar", "agg":
+			n = len(p.v.S)
+		case "bool":
+			n = 1
+		case "ptr":
+			n = 2 + p.cells
+		case "slice":
+			n = 4
+		}
+		if i == pi {
+			return rp.inVals[idx : idx+n]
+		}
+		idx += n
+	}
+	return nil
+}
+
+func (rp *replayer) sliceContentTerms() []string {
+	var ts []string
+	for i, p := range rp.params {
+		if p.kind != "slice" {
+			continue
+		}
+		pv := rp.paramVals(i)
+		ln := int(pv[2].Int64())
+		if ln < 0 || ln > replayMaxSliceLen {
+			continue
+		}
+		for k := 0; k < ln*p.cells; k++ {
+			ts = append(ts, fmt.Sprintf("(select (select H0_Int %s) (+ %s %d))", p.v.S[0], p.v.S[1], k))
+		}
+	}
+	return ts
+}
+
+func (rp *replayer) pinLines(terms []string, vals []*big.Int) string {
+	var b strings.Builder
+	for i, t := range terms {
+		if i < len(vals) && vals[i] != nil {
+			fmt.Fprintf(&b, "(assert (= %s %s))\n", t, smtInt(vals[i]))
+		}
+	}
+	return b.String()
+}
+
+func (rp *replayer) solve(q string) string {
+	home, _ := os.UserHomeDir()
+	f, err := os.CreateTemp(home, ".govc-replay-*.smt2")
+	if err != nil {
+		return "error"
+	}
+	defer os.Remove(f.Name())
+	f.WriteString(q)
+	f.Close()
+	res := runSolver(context.Background(), solvers[0], f.Name(), 20)
+	return res.verdict
+}
+
+// getValues runs query + (get-value terms) and returns the integer values (nil if the query is not sat).
+func (rp *replayer) getValues(base string, terms []string) ([]*big.Int, string) {
+	if len(terms) == 0 {
+		return []*big.Int{}, "sat"
+	}
+	home, _ := os.UserHomeDir()
+	f, err := os.CreateTemp(home, ".govc-replay-*.smt2")
+	if err != nil {
+		return nil, "error"
+	}
+	defer os.Remove(f.Name())
+	q := base
+	if !strings.Contains(q, "(check-sat)") {
+		q += "\n(check-sat)"
+	}
+	q += "\n(get-value (" + strings.Join(terms, " ") + "))\n"
+	f.WriteString(q)
+	f.Close()
+	ctx, cancel := context.WithTimeout(context.Background(), 25*time.Second)
+	defer cancel()
+	cmd := exec.CommandContext(ctx, "z3-new", "-T:20", "-smt2", f.Name())
+	ob, _ := cmd.CombinedOutput()
+	text := string(ob)
+	lines := strings.SplitN(strings.TrimSpace(text), "\n", 2)
+	if len(lines) < 2 || strings.TrimSpace(lines[0]) != "sat" {
+		v := "unknown"
+		if len(lines) > 0 {
+			v = strings.TrimSpace(lines[0])
+		}
+		return nil, v
+	}
+	sx := parseSexps(lines[1])
+	if len(sx) != 1 || len(sx[0].list) != len(terms) {
+		return nil, "unparsed model"
+	}
+	out := make([]*big.Int, len(terms))
+	for i, pair := range sx[0].list {
+		if len(pair.list) != 2 {
+			return nil, "unparsed model"
+		}
+		v := pair.list[1]
+		neg := false
+		if v.list != nil && len(v.list) == 2 && v.list[0].atom == "-" {
+			neg = true
+			v = v.list[1]
+		}
+		n, ok := new(big.Int).SetString(v.atom, 10)
+		if !ok {
+			return nil, "non-integer model value " + v.String()
+		}
+		if neg {
+			n.Neg(n)
+		}
+		out[i] = n
+	}
+	return out, "sat"
+}
+
+func (rp *replayer) typeStr(t types.Type) string {
+	pkg := rp.g.fn.Pkg.Pkg
+	return types.TypeString(t, func(p *types.Package) string {
+		if p == pkg {
+			return ""
+		}
+		rp.imports[p.Path()] = p.Name()
+		return p.Name()
+	})
+}
+
+// setCells emits assignments of the leaf cells of the Go lvalue expr (of type t) from vals[*idx:].
+func (rp *replayer) setCells(t types.Type, expr string, vals []*big.Int, idx *int, out *[]string) bool {
+	switch u := t.Underlying().(type) {
+	case *types.Basic:
+		if *idx >= len(vals) || vals[*idx] == nil {
+			return false
+		}
+		v := vals[*idx]
+		*idx++
+		if u.Info()&types.IsBoolean != 0 {
+			*out = append(*out, fmt.Sprintf("%s = %v", expr, v.Sign() != 0))
+			return true
+		}
+		bits, signed, ok := intInfo(t)
+		if !ok {
+			return false
+		}
+		if bits == 0 {
+			bits = 64
+		}
+		lo, hi := big.NewInt(0), new(big.Int).Lsh(big.NewInt(1), uint(bits))
+		if signed {
+			lo = new(big.Int).Neg(new(big.Int).Lsh(big.NewInt(1), uint(bits-1)))
+			hi = new(big.Int).Lsh(big.NewInt(1), uint(bits-1))
+		}
+		if v.Cmp(lo) < 0 || v.Cmp(hi) >= 0 {
+			rp.why = "model value out of the type's range"
+			return false
+		}
+		*out = append(*out, fmt.Sprintf("%s = %s(%s)", expr, rp.typeStr(t), v.String()))
+		return true
+	case *types.Array:
+		for i := 0; i < int(u.Len()); i++ {
+			if !rp.setCells(u.Elem(), fmt.Sprintf("%s[%d]", expr, i), vals, idx, out) {
+				return false
+			}
+		}
+		return true
+	case *types.Struct:
+		for i := 0; i < u.NumFields(); i++ {
+			if !rp.setCells(u.Field(i).Type(), expr+"."+u.Field(i).Name(), vals, idx, out) {
+				return false
+			}
+		}
+		return true
+	}
+	return false
+}
+
+// printCells emits fmt statements printing the leaf cells of expr.
+func (rp *replayer) printCells(t types.Type, expr string, out *[]string) {
+	switch u := t.Underlying().(type) {
+	case *types.Basic:
+		if u.Info()&types.IsBoolean != 0 {
+			*out = append(*out, fmt.Sprintf("if %s { govcOut = append(govcOut, \"1\") } else { govcOut = append(govcOut, \"0\") }", expr))
+			return
+		}
+		_, signed, _ := intInfo(t)
+		if signed {
+			*out = append(*out, fmt.Sprintf("govcOut = append(govcOut, fmt.Sprint(int64(%s)))", expr))
+		} else {
+			*out = append(*out, fmt.Sprintf("govcOut = append(govcOut, fmt.Sprint(uint64(%s)))", expr))
+		}
+	case *types.Array:
+		for i := 0; i < int(u.Len()); i++ {
+			rp.printCells(u.Elem(), fmt.Sprintf("%s[%d]", expr, i), out)
+		}
+	case *types.Struct:
+		for i := 0; i < u.NumFields(); i++ {
+			rp.printCells(u.Field(i).Type(), expr+"."+u.Field(i).Name(), out)
+		}
+	}
+}
+
+// testSource builds the in-package test calling the function on the model's inputs.
+func (rp *replayer) testSource() (string, bool) {
+	g := rp.g
+	fn := g.fn
+	var body []string
+	var args []string
+	ptrVar := map[string]string{} // "obj|off" -> variable (aliased pointer arguments share the object)
+	sliceIdx := 0
+	for i, p := range rp.params {
+		pv := rp.paramVals(i)
+		vn := fmt.Sprintf("a%d", i)
+		switch p.kind {
+		case "scalar", "bool", "agg":
+			body = append(body, fmt.Sprintf("var %s %s", vn, rp.typeStr(p.t)))
+			idx := 0
+			if !rp.setCells(p.t, vn, pv, &idx, &body) {
+				if rp.why == "" {
+					rp.why = "cannot build " + p.name
+				}
+				return "", false
+			}
+			args = append(args, vn)
+		case "ptr":
+			if pv[0].Sign() == 0 {
+				args = append(args, "nil")
+				continue
+			}
+			key := pv[0].String() + "|" + pv[1].String()
+			if prev, ok := ptrVar[key]; ok {
+				if !types.Identical(rp.params[i].elem, rp.paramByVar(prev).elem) {
+					rp.why = "aliased pointers of different types"
+					return "", false
+				}
+				args = append(args, prev)
+				continue
+			}
+			for k := range ptrVar {
+				if strings.HasPrefix(k, pv[0].String()+"|") {
+					rp.why = "model overlaps two pointer arguments at different offsets of one object"
+					return "", false
+				}
+			}
+			body = append(body, fmt.Sprintf("%s := new(%s)", vn, rp.typeStr(p.elem)))
+			idx := 2
+			if !rp.setCells(p.elem, "(*"+vn+")", pv, &idx, &body) {
+				if rp.why == "" {
+					rp.why = "cannot build *" + p.name
+				}
+				return "", false
+			}
+			ptrVar[key] = vn
+			args = append(args, vn)
+		case "slice":
+			ln := int(pv[2].Int64())
+			if pv[0].Sign() == 0 {
+				args = append(args, "nil")
+				continue
+			}
+			if ln < 0 || ln > replayMaxSliceLen {
+				rp.why = fmt.Sprintf("slice %s of length %d in the model", p.name, ln)
+				return "", false
+			}
+			cp := ln
+			if c := pv[3]; c.IsInt64() && c.Int64() >= int64(ln) && c.Int64() <= 4*replayMaxSliceLen {
+				cp = int(c.Int64())
+			}
+			body = append(body, fmt.Sprintf("%s := make([]%s, %d, %d)", vn, rp.typeStr(p.elem), ln, cp))
+			n := ln * p.cells
+			if sliceIdx+n > len(rp.sliceVals) {
+				rp.why = "slice contents missing from the model"
+				return "", false
+			}
+			vals := rp.sliceVals[sliceIdx : sliceIdx+n]
+			sliceIdx += n
+			idx := 0
+			for e := 0; e < ln; e++ {
+				if !rp.setCells(p.elem, fmt.Sprintf("%s[%d]", vn, e), vals, &idx, &body) {
+					if rp.why == "" {
+						rp.why = "cannot build elements of " + p.name
+					}
+					return "", false
+				}
+			}
+			args = append(args, vn)
+		}
+	}
+	// the call
+	call := ""
+	sig := fn.Signature
+	if sig.Recv() != nil {
+		if len(args) == 0 {
+			rp.why = "method without receiver argument"
+			return "", false
+		}
+		recv := args[0]
+		if recv == "nil" {
+			rp.why = "nil receiver in the model"
+			return "", false
+		}
+		call = fmt.Sprintf("%s.%s(%s)", recv, fn.Name(), strings.Join(args[1:], ", "))
+	} else {
+		call = fmt.Sprintf("%s(%s)", fn.Name(), strings.Join(args, ", "))
+	}
+	nres := sig.Results().Len()
+	var resNames []string
+	for i := 0; i < nres; i++ {
+		resNames = append(resNames, fmt.Sprintf("r%d", i))
+	}
+	if nres > 0 {
+		body = append(body, strings.Join(resNames, ", ")+" := "+call)
+	} else {
+		body = append(body, call)
+	}
+	// outputs: pointees of pointer parameters, elements of slice parameters, then results
+	var prints []string
+	for i, p := range rp.params {
+		vn := fmt.Sprintf("a%d", i)
+		if i < len(args) && args[i] != vn {
+			continue // nil or aliased: printed once through the first variable
+		}
+		switch p.kind {
+		case "ptr":
+			rp.printCells(p.elem, "(*"+vn+")", &prints)
+		case "slice":
+			pv := rp.paramVals(i)
+			for e := 0; e < int(pv[2].Int64()); e++ {
+				rp.printCells(p.elem, fmt.Sprintf("%s[%d]", vn, e), &prints)
+			}
+		}
+	}
+	for i := 0; i < nres; i++ {
+		rt := sig.Results().At(i).Type()
+		rn := resNames[i]
+		switch u := rt.Underlying().(type) {
+		case *types.Basic, *types.Array, *types.Struct:
+			if flatInts(g.lay, rt) || isBoolT(rt) {
+				rp.printCells(rt, rn, &prints)
+			} else {
+				prints = append(prints, "_ = "+rn)
+			}
+		case *types.Pointer:
+			prints = append(prints, fmt.Sprintf("if %s == nil { govcOut = append(govcOut, \"0\") } else { govcOut = append(govcOut, \"1\") }", rn))
+			if flatInts(g.lay, u.Elem()) {
+				var sub []string
+				rp.printCells(u.Elem(), "(*"+rn+")", &sub)
+				zero := make([]string, len(sub))
+				for k := range zero {
+					zero[k] = "govcOut = append(govcOut, \"x\")"
+				}
+				prints = append(prints, "if "+rn+" != nil {\n"+strings.Join(sub, "\n")+"\n} else {\n"+strings.Join(zero, "\n")+"\n}")
+			}
+		case *types.Interface:
+			prints = append(prints, fmt.Sprintf("if %s == nil { govcOut = append(govcOut, \"0\") } else { govcOut = append(govcOut, \"1\") }", rn))
+		default:
+			prints = append(prints, "_ = "+rn)
+		}
+	}
+	var b strings.Builder
+	fmt.Fprintf(&b, "package %s\n\nimport (\n\t\"fmt\"\n\t\"strings\"\n\t\"testing\"\n", fn.Pkg.Pkg.Name())
+	var imps []string
+	for p := range rp.imports {
+		imps = append(imps, p)
+	}
+	sort.Strings(imps)
+	for _, p := range imps {
+		fmt.Fprintf(&b, "\t%s %q\n", rp.imports[p], p)
+	}
+	b.WriteString(")\n\n// generated by govc: replay of a solver counterexample against the real function\nfunc TestGovcReplay(t *testing.T) {\n")
+	b.WriteString("\tvar govcOut []string\n\tdefer func() {\n\t\tif r := recover(); r != nil {\n\t\t\tfmt.Printf(\"GOVC-PANIC %v\\n\", r)\n\t\t}\n\t}()\n")
+	for _, l := range body {
+		b.WriteString("\t" + strings.ReplaceAll(l, "\n", "\n\t") + "\n")
+	}
+	for _, l := range prints {
+		b.WriteString("\t" + strings.ReplaceAll(l, "\n", "\n\t") + "\n")
+	}
+	b.WriteString("\tfmt.Printf(\"GOVC-OUT %s\\n\", strings.Join(govcOut, \" \"))\n}\n")
+	return b.String(), true
+}
+
+func (rp *replayer) paramByVar(vn string) rparam {
+	var i int
+	fmt.Sscanf(vn, "a%d", &i)
+	return rp.params[i]
+}
+
+// outputTerms: SMT terms of the observable outputs at the return the obligation belongs to, in the order testSource
+// prints them ("" = not pinned).
+func (rp *replayer) outputTerms() []string {
+	g := rp.g
+	m := regexp.MustCompile(`@ret(\d+)`).FindStringSubmatch(rp.o.Name)
+	if m == nil {
+		return nil
+	}
+	var ri int
+	fmt.Sscan(m[1], &ri)
+	rs, ok := g.retStates[ri]
+	if !ok {
+		return nil
+	}
+	var ts []string
+	seen := map[string]bool{}
+	for i, p := range rp.params {
+		pv := rp.paramVals(i)
+		switch p.kind {
+		case "ptr":
+			if pv[0].Sign() == 0 {
+				continue
+			}
+			key := pv[0].String() + "|" + pv[1].String()
+			if seen[key] {
+				continue
+			}
+			seen[key] = true
+			for k := 0; k < p.cells; k++ {
+				ts = append(ts, fmt.Sprintf("(select (select %s %s) (+ %s %d))", rs.heapInt, p.v.S[0], p.v.S[1], k))
+			}
+		case "slice":
+			if pv[0].Sign() == 0 {
+				continue
+			}
+			for k := 0; k < int(pv[2].Int64())*p.cells; k++ {
+				ts = append(ts, fmt.Sprintf("(select (select %s %s) (+ %s %d))", rs.heapInt, p.v.S[0], p.v.S[1], k))
+			}
+		}
+	}
+	sig := g.fn.Signature
+	for i := 0; i < sig.Results().Len(); i++ {
+		if i >= len(rs.results) {
+			return nil
+		}
+		rt := sig.Results().At(i).Type()
+		rv := rs.results[i]
+		switch u := rt.Underlying().(type) {
+		case *types.Basic, *types.Array, *types.Struct:
+			if isBoolT(rt) {
+				if rv.Sort == "Bool" {
+					ts = append(ts, "bool:"+rv.S[0])
+				} else {
+					ts = append(ts, rv.S[0])
+				}
+			} else if flatInts(g.lay, rt) {
+				ts = append(ts, rv.S...)
+			}
+		case *types.Pointer:
+			ts = append(ts, "nil:"+rv.S[0])
+			if flatInts(g.lay, u.Elem()) {
+				for k := 0; k < g.lay.Size(u.Elem()); k++ {
+					ts = append(ts, fmt.Sprintf("(select (select %s %s) (+ %s %d))", rs.heapInt, rv.S[0], rv.S[1], k))
+				}
+			}
+		case *types.Interface:
+			ts = append(ts, "nil:"+rv.S[0])
+		}
+	}
+	return ts
+}
+
+func (rp *replayer) describeInputs() map[string]interface{} {
+	out := map[string]interface{}{}
+	for i, p := range rp.params {
+		pv := rp.paramVals(i)
+		var s []string
+		for _, v := range pv {
+			if v != nil {
+				s = append(s, v.String())
+			}
+		}
+		label := p.kind
+		if p.kind == "ptr" {
+			label = "pointer (object, offset, pointee cells)"
+		} else if p.kind == "slice" {
+			label = "slice (object, offset, len, cap)"
+		}
+		out[p.name] = map[string]interface{}{"kind": label, "model": s}
+	}
+	if len(rp.sliceVals) > 0 {
+		var s []string
+		for _, v := range rp.sliceVals {
+			s = append(s, v.String())
+		}
+		out["$slice_contents"] = s
+	}
+	return out
+}
+
+func (rp *replayer) run(repo, src string) (string, string) {
+	home, _ := os.UserHomeDir()
+	tmp, err := os.MkdirTemp(home, ".govc-replay-")
+	if err != nil {
+		return "", err.Error()
+	}
+	defer os.RemoveAll(tmp)
+	fn := rp.g.fn
+	var dir string
+	if f := rp.g.eng.fset.File(fn.Pos()); f != nil {
+		dir = filepath.Dir(f.Name())
+	} else {
+		return "", "no source position for the function"
+	}
+	target := filepath.Join(dir, "zz_govc_replay_test.go")
+	srcf := filepath.Join(tmp, "replay_test.go")
+	os.WriteFile(srcf, []byte(src), 0o644)
+	ov, _ := json.Marshal(map[string]interface{}{"Replace": map[string]string{target: srcf}})
+	ovf := filepath.Join(tmp, "overlay.json")
+	os.WriteFile(ovf, ov, 0o644)
+	rel, err := filepath.Rel(repo, dir)
+	if err != nil {
+		return "", err.Error()
+	}
+	cmd := exec.Command("go", "test", "-overlay", ovf, "-vet=off", "-v", "-count=1", "-timeout", "60s", "-run", "^TestGovcReplay$", "./"+rel)
+	cmd.Dir = repo
+	cmd.Env = append(os.Environ(), "GOFLAGS=-mod=mod", "GOPROXY=off", "GOSUMDB=off", "GOTOOLCHAIN=local")
+	ob, _ := cmd.CombinedOutput()
+	text := string(ob)
+	if !strings.Contains(text, "GOVC-OUT") && !strings.Contains(text, "GOVC-PANIC") {
+		if len(text) > 800 {
+			text = text[len(text)-800:]
+		}
+		return "", "go test produced no replay output: " + text
+	}
+	var keep []string
+	for _, l := range strings.Split(text, "\n") {
+		if strings.HasPrefix(l, "GOVC-") {
+			keep = append(keep, l)
+		}
+	}
+	return strings.Join(keep, "\n"), ""
+}
+
+var _ = ssa.BuilderMode(0)
